@@ -1,4 +1,5 @@
 import ScrapliModel.Lemmas.HelloFrame
+import ScrapliModel.Generated.BodiesNetconf
 /-!
 # C09 — NETCONF session establishment negotiates the right version or fails cleanly
 
@@ -347,5 +348,25 @@ theorem framing_follows_version_10 (reqs : List Bytes) (ret xml rest : Bytes)
 
 example : delimFirstAtEnd Gen.Netconf.v1Dot0Delim (LF :: [60,114,112,99,47,62]) = true := by
   decide +kernel
+
+/-! ## tie to the source: translated body = model (regenerated on every run) -/
+
+/-- the body of `(*Driver).determineVersion` as the translator renders it from the current source
+(`Generated/BodiesNetconf.lean`; `sel0`, `p0` = `SelectedVersion` and the channel's prompt pattern
+on entry, `d10` / `d11` = the two compiled delimiter patterns): whenever the model selects a
+version the code returns `nil`, stores that version's string and installs that version's delimiter
+pattern; whenever the model fails the code returns an error wrapping `ErrNetconfError` -/
+theorem generated_determineVersion_eq {P : Type} (caps : List Bytes) (pref : Bytes) (d10 d11 : P)
+    (sel0 : Bytes) (p0 : P) :
+    match determineVersion caps pref with
+    | some v => Gen.Bodies.Netconf.determineVersion caps pref d10 d11 sel0 p0
+                  = (none, v.str, match v with | .v10 => d10 | .v11 => d11)
+    | none => (Gen.Bodies.Netconf.determineVersion caps pref d10 d11 sel0 p0).1
+                  = some "ErrNetconfError" := by
+  have hne : (Gen.Netconf.V1Dot1 == Gen.Netconf.V1Dot0) = false := by decide
+  unfold Gen.Bodies.Netconf.determineVersion determineVersion
+  cases h11 : hasCap caps Gen.Netconf.v1Dot1Cap <;> cases h10 : hasCap caps Gen.Netconf.v1Dot0Cap <;>
+    cases hp0 : pref == Gen.Netconf.V1Dot0 <;> cases hp1 : pref == Gen.Netconf.V1Dot1 <;>
+    simp [hne, Ver.str]
 
 end Scrapli.Netconf.C09
